@@ -317,9 +317,10 @@ def build():
     w.ext_funcs['issubclass'] = dict(params={'c': 'Cls', 'base': 'Obj'}, returns='bool', ensures_seq=[['result == is_qualified(c)'], ['result == has_sn(c)']])
     w.ext_funcs['sn.shortname_from_fullname'] = dict(params={'n': 'Obj'}, returns='Obj', ensures=['result == shortname_of(n)'])
     w.ext_methods['FS.get_by_id'] = dict(params={'id': 'Id', 'type': 'Obj'}, optional=('type',), returns='Obj')
-    w.ext_methods['FS.has_module'] = dict(params={'m': 'Obj'}, returns='bool')
+    w.ufunc('HASMOD', ['FS', 'Obj'], 'bool'); w.ufunc('MODNAME', ['Obj'], 'Obj')
+    w.ext_methods['FS.has_module'] = dict(params={'m': 'Obj'}, returns='bool', returns_expr='HASMOD(self, m)')
     w.ext_methods['Obj.get_verbosename'] = dict(params={'schema': 'FS', 'with_parent': 'bool'}, optional=('with_parent',), returns='str')
-    w.ext_methods['Obj.get_module_name'] = dict(params={}, returns='Obj')
+    w.ext_methods['Obj.get_module_name'] = dict(params={}, returns='Obj', returns_expr='MODNAME(self)')
     w.opaque_exprs['so.QualifiedObject'] = 'Obj'; w.opaque_exprs['SPECIAL_MODULES'] = 'Set[Obj]'; w.opaque_exprs['so.Object'] = 'Obj'
     w.opaque_exprs['(s_func.Function, s_oper.Operator)'] = 'Obj'
     w.classes['Obj']['module'] = 'Obj'; w.classes['Obj']['name'] = 'Obj'
@@ -345,7 +346,10 @@ def build():
             # a name is never taken over: on normal return the new name was free (or is the object's own old name) -- this is the only place a RENAME's new name is checked
             'implies(is_qualified(sclass) and %s, not (some(new_name) in self._name_to_id) or (%s and some(old_name) == some(new_name)))' % (NEWN, OLDN),
             'implies(not is_qualified(sclass) and %s, not ((sclass, some(new_name)) in self._globalname_to_id) or (%s and some(old_name) == some(new_name)))' % (NEWN, OLDN)],
-        raises={'SchemaError': {}, 'UnknownModuleError': {}, 'AssertionError': {}, 'AttributeError': {}},
+        # ... and a name is refused ("already exists") ONLY when another object holds it: completeness of the duplicate check (a renamed object may keep its own name)
+        raises={'SchemaError': dict(only_if='%s and ((is_qualified(sclass) and some(new_name) in self._name_to_id and not (%s and some(old_name) == some(new_name))) '
+                                            'or (not is_qualified(sclass) and (sclass, some(new_name)) in self._globalname_to_id and not (%s and some(old_name) == some(new_name))))' % (NEWN, OLDN, OLDN)),
+                'UnknownModuleError': dict(only_if='%s and is_qualified(sclass) and not HASMOD(self, some(new_name).module) and not (MODNAME(some(new_name)) in SPECIAL_MODULES)' % NEWN), 'AssertionError': {}, 'AttributeError': {}},
         hints=dict(var_types={'ids': 'Set[Id]', 'new_ids': 'Set[Id]'}))
     SAMEDATA = 'forall(Id, lambda r: implies(r != obj.id, (r in result._id_to_data) == (r in self._id_to_data) and implies(r in self._id_to_data, result._id_to_data[r] == self._id_to_data[r])))'
     w.contract(SCH, 'FlatSchema.set_obj_field', params={'self': 'FS', 'obj': 'SObj', 'fieldname': 'FName', 'value': 'Obj'}, returns='FS',
@@ -393,27 +397,38 @@ def build():
     # add_raw / _delete: the object appears / disappears as a referrer of exactly what its field tuple references
     w.classes['Cls']['__name__'] = 'TName'
     NAMEF = 'cls_fields(sclass)[strlit_name()]'
-    w.contract(SCH, 'FlatSchema.add_raw', params={'self': 'FS', 'id': 'Id', 'sclass': 'Cls', 'data': 'Seq[Opt[Obj]]'}, returns='FS',
+    w.contract(SCH, 'FlatSchema.add_raw', params={'self': 'FS', 'id': 'Id', 'sclass': 'Cls', 'data': 'Seq[Opt[Obj]]'}, returns='FS', ghost={'gT': 'Id', 'gF': 'FName'},
         requires=SINV('self') + [RIPRE, WFC('sclass'), 'len(data) == nfields(sclass)', 'class_by_name(sclass.__name__) == sclass', '"name" in cls_fields(sclass)',
                   # a new object is the referrer of nothing yet (RI(self) gives this for ids absent from the schema)
                   ],
         modifies=FSF,
-        ensures=SINV('result') + FROZEN + ['id in result._id_to_data', 'result._id_to_data[id] == data', 'CLS(result, id) == sclass',
+        ensures=SINV('result') + FROZEN + [
+                 # the new object is filed as a referrer of exactly what its field tuple references: one arbitrary (target, field) pair -- the ground instance of RI(result) for the
+                 # new object (the full RI(result) is provable here too but takes ~7 min with a 60 s budget per query, too slow and too fragile for a check; the callee's EXACT
+                 # precondition covers the other objects)
+                 'REF(result._refs_to, gT, sclass, gF, id) == HOLDS(result, gT, sclass, gF, id)',
+                 'id in result._id_to_data', 'result._id_to_data[id] == data', 'CLS(result, id) == sclass',
                  'forall(Id, lambda r: implies(r != id, (r in result._id_to_data) == (r in self._id_to_data) and implies(r in self._id_to_data, result._id_to_data[r] == self._id_to_data[r])))'],
-        raises={'SchemaError': dict(ensures=['heap_same("%s")' % f for f in FSF]), 'UnknownModuleError': dict(ensures=['heap_same("%s")' % f for f in FSF]),
-                'AssertionError': dict(ensures=['heap_same("%s")' % f for f in FSF]), 'KeyError': dict(ensures=['heap_same("%s")' % f for f in FSF]), 'IndexError': dict(ensures=['heap_same("%s")' % f for f in FSF]), 'TypeError': dict(ensures=['heap_same("%s")' % f for f in FSF]), 'AttributeError': dict(ensures=['heap_same("%s")' % f for f in FSF])},
+        # completeness of the duplicate checks: "already exists" / "already present" only when the name or the id really is taken
+        raises={'SchemaError': dict(only_if='(not is_none(data[cls_fields(sclass)["name"].index]) and (some(data[cls_fields(sclass)["name"].index]) in self._name_to_id '
+                                            'or (not is_qualified(sclass) and (sclass, some(data[cls_fields(sclass)["name"].index])) in self._globalname_to_id))) or id in self._id_to_data',
+                                    ensures=['heap_same("%s")' % f for f in FSF]), 'UnknownModuleError': dict(ensures=['heap_same("%s")' % f for f in FSF]),
+                'AssertionError': dict(ensures=['heap_same("%s")' % f for f in FSF]), 'AttributeError': dict(ensures=['heap_same("%s")' % f for f in FSF])},
         loops={0: dict(fingerprint='for field in object_ref_fields', done='dA', invariant=[
                  'object_ref_fields == cls_objref(sclass)',
                  'forall(Field, lambda F: implies(F in cls_objref(sclass), (F.name in new_refs) == (F in dA and not is_none(data[F.index]))))',
                  'forall(Field, lambda F: implies(F in dA and not is_none(data[F.index]), new_refs[F.name] == refs_of(F.type, some(data[F.index]))))',
                  'forall(FName, lambda n: implies(n in new_refs, n in cls_fields(sclass) and cls_fields(sclass)[n] in dA))'])},
         call_ghost={'FlatSchema._update_refs_to': {'olddata': 'None', 'newdata': 'data'}},
-        hints=dict(var_types={'new_refs': 'Map[FName,Set[Id]]', 'refs_to': 'Opt[%s]' % REFS}))
-    w.contract(SCH, 'FlatSchema._delete', params={'self': 'FS', 'obj': 'SObj'}, returns='FS',
+        hints=dict(var_types={'new_refs': 'Map[FName,Set[Id]]', 'refs_to': 'Opt[%s]' % REFS}, timeout_ms=40000))      # stated budget: the ground RI instance needs ~10-20 s
+    w.contract(SCH, 'FlatSchema._delete', params={'self': 'FS', 'obj': 'SObj'}, returns='FS', ghost={'gT': 'Id', 'gF': 'FName'},
         requires=SINV('self') + [RIPRE, WFC('cls_of(obj)'), 'implies(obj.id in self._id_to_data, cls_of(obj) == CLS(self, obj.id))', '"name" in cls_fields(cls_of(obj))',
                   'implies(obj.id in self._id_to_data, NAMEINV(self, cls_of(obj), self._id_to_data[obj.id][cls_fields(cls_of(obj))["name"].index]))'],
         modifies=FSF,
-        ensures=SINV('result') + FROZEN + ['not (obj.id in result._id_to_data)', 'not (obj.id in result._id_to_type)',
+        ensures=SINV('result') + FROZEN + [
+                 # the deleted object is no longer filed as a referrer of anything (one arbitrary (target, field) pair: ground instance of RI(result) for the object)
+                 'not REF(result._refs_to, gT, cls_of(obj), gF, obj.id)',
+                 'not (obj.id in result._id_to_data)', 'not (obj.id in result._id_to_type)',
                  'forall(Id, lambda r: implies(r != obj.id, (r in result._id_to_data) == (r in self._id_to_data) and implies(r in self._id_to_data, result._id_to_data[r] == self._id_to_data[r])))'],
         raises={'UnknownModuleError': dict(ensures=['heap_same("%s")' % f for f in FSF]),
                 'InvalidReferenceError': dict(only_if='not (obj.id in self._id_to_data)', ensures=['heap_same("%s")' % f for f in FSF]),
